@@ -1,5 +1,34 @@
-"""C13 - checked by the classification engine (p_classify.py)."""
+"""C13 - checked by the classification engine (p_classify.py) and, for the 'no RPC call, no state, answered at once' clause,
+by the system engine running the real handle_htlc on requests that are not well-formed trampoline requests."""
+import json
 from p_classify import run_classify
 
+def system_part(o, binary):
+    from p_sys import run_traces, brief, SplitMix64, odd_case, odd_all_case, walks
+    r = SplitMix64(o.seed * 13 + 13)
+    T = o.tier == "thorough"
+    cases = [odd_case(r.fork()) for _ in range(60 if T else 15)] + [odd_all_case(r.fork(), lo, lo + 12) for lo in range(0, 84, 12)]
+    cases += walks(r, 60 if T else 10)
+    try:
+        keep, verdicts, skewed = run_traces(binary, cases, "C13sys")
+    except RuntimeError as ex:
+        o.corr_failures.append(("could not run/evaluate system traces: %s" % str(ex)[-1500:], {})); return
+    n_odd = 0
+    for (c, t), v in zip(keep, verdicts):
+        bad, k_out, k_reply, mask, first, kf, npay, nsteps = v
+        o.evaluations += 1; o.traces_validated += 1
+        n_odd += sum(1 for e in t["events"] if e["e"] == "htlc")
+        o.nontrivial.add("sys" + json.dumps(t["events"], sort_keys=True)[:3000])
+        if bad or k_reply:
+            o.internal.append("system trace %s: contract violated / simulated node differs" % c["family"]); continue
+        if mask & (1 << 13):
+            o.monitor_failures.append(("system trace %s: a request that is not a trampoline request was not simply answered `continue` (step %d): %s" % (
+                c["family"], first, " | ".join(brief(t, first)[-2:])[:700]), {"family": c["family"], "history": brief(t, first + 1), "trace": t}))
+        elif k_out:
+            o.corr_failures.append(("system trace %s: implementation and model differ at step %d: %s" % (c["family"], k_out, " | ".join(brief(t, k_out)[-2:])[:600]),
+                                    {"family": c["family"], "history": brief(t, k_out + 1), "trace": t}))
+    o.distribution["system_traces"] = len(keep); o.distribution["system_htlc_deliveries"] = n_odd
+    o.rule += " PLUS system traces: the real handle_htlc on malformed / forward / unusable-invoice requests interleaved with a live payment (monitor: answered continue in the same step, no RPC, no state)."
+
 def run(tier, seed):
-    return run_classify("C13", tier, seed)
+    return run_classify("C13", tier, seed, extra=system_part)
